@@ -87,6 +87,7 @@ type Case struct {
 	Passes       int       `json:"passes,omitempty"`
 	MaxBytes     int64     `json:"max_bytes"`
 	ErrReturn    bool      `json:"err_return,omitempty"`
+	Ignore       bool      `json:"symlink_ignore,omitempty"` // SymlinkResolution = SymlinkIgnore (UnpackSquashedFromTarball only)
 	TargetAbsent bool      `json:"target_absent,omitempty"`
 	EvilSibling  bool      `json:"evil_sibling,omitempty"`
 	DirSuffix    string    `json:"dir_suffix,omitempty"`
@@ -442,7 +443,7 @@ func (c *Case) classify() {
 		}
 	}
 	c.NonTrivial = nt
-	b, _ := json.Marshal([]any{c.Op, c.Layers, c.Passes, c.MaxBytes, c.ErrReturn, c.TargetAbsent, c.EvilSibling, c.DirSuffix})
+	b, _ := json.Marshal([]any{c.Op, c.Layers, c.Passes, c.MaxBytes, c.ErrReturn, c.TargetAbsent, c.EvilSibling, c.DirSuffix, c.Ignore})
 	h := sha256.Sum256(b)
 	c.InputHash = hex.EncodeToString(h[:12])
 }
@@ -473,6 +474,9 @@ func runUnpack(sb *sandbox, c *Case, out *runOut) {
 	cfg := unpack.DefaultUnpackerConfig().WithMaxPass(c.Passes).WithMaxFileBytes(c.MaxBytes)
 	if c.ErrReturn {
 		cfg.SymlinkErrStrategy = unpack.SymlinkErrReturn
+	}
+	if c.Ignore && c.Op == "unpack-tarball" {
+		cfg.SymlinkResolution = unpack.SymlinkIgnore
 	}
 	u, err := unpack.NewUnpacker(cfg)
 	must(err)
@@ -680,10 +684,10 @@ func coqUCase(sb *sandbox, c *Case, out *runOut) string {
 	for _, l := range c.Links {
 		links = append(links, fmt.Sprintf("(%s, %s)", coqPathIn(sb, l.Path), cf.Option(l.OK, coqPathIn(sb, l.Resolved))))
 	}
-	return fmt.Sprintf("{| uc_dir := %s; uc_target := %s; uc_max := %s; uc_passes := %s; uc_errret := %s; uc_squash_failed := %s;\n"+
+	return fmt.Sprintf("{| uc_dir := %s; uc_target := %s; uc_max := %s; uc_passes := %s; uc_errret := %s; uc_ignore := %s; uc_cwd := %s; uc_squash_failed := %s;\n"+
 		"     uc_init := %s;\n     uc_entries := %s;\n     uc_obs := %s;\n     uc_err := %s; uc_links := %s; uc_meta_ok := %s |}",
 		cf.Str(sb.virt(sb.target)+c.DirSuffix), coqPathIn(sb, sb.virt(sb.target)), cf.Z(effMax(c.MaxBytes)), cf.Nat(effPasses(c.Passes)),
-		cf.Bool(c.ErrReturn), cf.Bool(c.SquashFailed),
+		cf.Bool(c.ErrReturn), cf.Bool(c.Ignore && c.Op == "unpack-tarball"), coqPathIn(sb, sb.virt(sb.cwd)), cf.Bool(c.SquashFailed),
 		coqFS(sb, c.Init, false), coqEntries(c.Flat, out.flatContents, false), coqFS(sb, c.Obs, false),
 		cf.Bool(c.Err != ""), cf.List(links), cf.Bool(c.MetaOK))
 }
@@ -876,6 +880,7 @@ func genLinkShape(r *rand.Rand) *Case {
 		c.Op = "unpack-image"
 	}
 	c.EvilSibling = r.Intn(3) == 0
+	c.Ignore = c.Op == "unpack-tarball" && r.Intn(6) == 0
 	budget := maxDotDot
 	var es []Entry
 	for i, n := 0, 1+r.Intn(3); i < n; i++ {
@@ -1038,6 +1043,7 @@ func genUnpack(r *rand.Rand, stream string) *Case {
 		c.Op = "unpack-image"
 	}
 	c.ErrReturn = r.Intn(6) == 0
+	c.Ignore = c.Op == "unpack-tarball" && r.Intn(6) == 0
 	c.TargetAbsent = r.Intn(8) == 0
 	c.EvilSibling = r.Intn(3) == 0
 	budget := maxDotDot
